@@ -105,8 +105,16 @@ def scan(tr):
             st["send_complete_notifications"] = st.get("send_complete_notifications", 0) + 1
 
 
-def run_scripts(ctx, exe, execs, tag, engine="epoll", replayed=True):
-    """execs: list of execution dicts {"t","thr","buf","ops"}.  Returns True when the trace was accepted."""
+def run_scripts(ctx, exe, execs, tag, engine="epoll", replayed=True, chunk=20000):
+    """execs: list of execution dicts {"t","thr","buf","ops"}.  Returns (accepted, trace path)."""
+    if len(execs) > chunk:
+        ok, tr = True, None
+        for i in range(0, len(execs), chunk):
+            o, tr = run_scripts(ctx, exe, execs[i:i + chunk], "%s-%d" % (tag, i // chunk), engine, replayed, chunk)
+            ok = ok and o
+            if not o:
+                break       # one rejected execution per family is enough
+        return ok, tr
     sp = ctx.tmp(tag + ".jsonl")
     with open(sp, "w") as f:
         for e in execs:
@@ -287,6 +295,37 @@ def parse_replay(path):
 
 
 # ------------------------------------------------------------------------------------------------------------------
+def gen_sim(ctx, cfg, num, depth, limit):
+    """random deep behaviours of the model (-simulate), deterministic for a fixed VERIF_SEED (one worker, -seed)"""
+    d = os.path.join(vlib.SPEC, SPEC)
+    cmd = vlib._tlc_cmd("Gen_BufferedFd.tla", cfg, ctx.metadir(), 1,
+                        ["-simulate", "num=%d" % num, "-depth", str(depth), "-seed", str(ctx.seed)], ("-Xmx4g",))
+    t = time.time()
+    rc, out = vlib.sh(cmd, timeout=300, cwd=d)
+    if rc != 0:
+        raise vlib.Infra("TLC simulate failed rc=%d %s\n%s" % (rc, cfg, out[-2000:]))
+    seen, res = set(), []
+    for line in out.splitlines():
+        line = line.strip()
+        if not line.startswith('"'):
+            continue
+        try:
+            b = json.loads(line)
+        except Exception:
+            continue
+        if isinstance(b, str) and b.startswith("BEH ") and b not in seen:
+            seen.add(b)
+            res.append(json.loads(b[4:]))
+            if len(res) >= limit:
+                break
+    if not res:
+        raise vlib.Infra("simulation produced no behaviours (%s)" % cfg)
+    ctx.mc_runs.append({"model": "Gen_BufferedFd.tla/" + cfg, "expect": "generate", "behaviours": len(res),
+                        "wall_s": round(time.time() - t, 1), "mode": "simulate (seeded)"})
+    ctx.log("GEN %-40s behaviours=%d (simulate, seed %d) %.1fs" % ("Gen_BufferedFd.tla/" + cfg, len(res), ctx.seed, time.time() - t))
+    return res
+
+
 def temporal_mc(ctx, cfg, expect_violation):
     """liveness configurations; vlib's parser does not know TLC's 'Temporal property X was violated' line"""
     d = os.path.join(vlib.SPEC, SPEC)
@@ -376,11 +415,19 @@ def binding(ctx, exe, quick, rnd):
         for (t, u) in combos:
             execs.append(from_model(b, t, 0, u))
     if quick:
-        execs = execs[:400]
+        execs = execs[:700]
     run_scripts(ctx, exe, execs, "gen-tcp")
+    # random deep behaviours of the model
+    nsim = 250 if quick else 3000
+    deep = gen_sim(ctx, "Gen_sim.cfg", nsim * 2, 16, nsim)
+    deep_tcp = gen_sim(ctx, "Gen_sim_tcp.cfg", nsim, 14, nsim // 2)
+    ctx.sample({"kind": "random deep model behaviour", "script": deep[0]})
+    execs = [from_model(b, *RAW[i % len(RAW)], unit=units[(i // 4) % 3]) for i, b in enumerate(deep)] + \
+            [from_model(b, TCP[i % len(TCP)], 0, (1, 1500, 300000)[(i // 4) % 3]) for i, b in enumerate(deep_tcp)]
+    run_scripts(ctx, exe, execs, "gen-sim")
 
     # 3. code -> spec: seeded random long scripts ------------------------------------------------------------------------
-    n_raw, n_tcp, n_sel = (900, 200, 150) if quick else (9000, 2500, 1500)
+    n_raw, n_tcp, n_sel = (900, 400, 150) if quick else (9000, 2500, 1500)
     execs = [rand_exec(rnd, *rnd.choice(RAW), big=(i % 10 == 0)) for i in range(n_raw)]
     ok, tr = run_scripts(ctx, exe, execs, "random-raw", replayed=False)
     ctx.sample({"kind": "recorded trace (first events)", "events": [json.loads(x) for x in vlib.read_lines(tr, 1, 12)]})
